@@ -780,6 +780,17 @@ def blocks_rule(ctx):
     other = [short_loc(x[1].get('span')) for x in skips if x[0] not in ign_reg and not b.is_cleanup(x[0])]
     ctx.ob('BLOCKS', 'read_block_len/no-computed-skip', not other, short_loc(b.span),
            'skip_bytes calls outside the advertised-size branch of the block header: %s' % (other or 'none'))
+    # ... nor anywhere else in the deserializer proper: the advertised byte size is the only number of bytes that may be
+    # skipped without decoding (a skip by count x "size of an item" lives wherever the block count is at hand)
+    elsewhere = []
+    for x in f.body_list:
+        if x is b or not x.id.startswith(('de::deserializer::', '<de::deserializer::')):
+            continue
+        for xb, xt in x.calls():
+            if not x.is_cleanup(xb) and classify_de(x, xb, xt) == ('SKIP',):
+                elsewhere.append('%s at %s' % (short_fn(fn_label(x)), short_loc(xt.get('span'))))
+    ctx.ob('BLOCKS', 'no-skip-outside-the-block-header', not elsewhere, short_loc(b.span),
+           'skip_bytes calls in the deserializer outside read_block_len: %s' % (elsewhere or 'none'))
     # after skipping, the loop continues with the next header: the skip's success edge reaches the count read again
     if sk:
         te = try_edges(b, sk[0][0])
